@@ -4588,9 +4588,11 @@ evdns_base_resolv_conf_parse_impl(struct evdns_base *base, int flags, const char
 		}
 	}
 
+	/* Split on '\n' within the n bytes read (the buffer is NUL-terminated at
+	 * resolv[n]): a stray NUL byte only truncates its own line. */
 	start = resolv;
 	for (;;) {
-		char *const newline = strchr(start, '\n');
+		char *const newline = memchr(start, '\n', (resolv + n) - start);
 		if (!newline) {
 			resolv_conf_parse_line(base, start, flags);
 			break;
@@ -5208,11 +5210,11 @@ evdns_base_load_hosts_impl(struct evdns_base *base, const char *hosts_fname)
 		return err ? -1 : 0;
 	}
 
-	/* This will break early if there is a NUL in the hosts file.
-	 * Probably not a problem.*/
+	/* Split on '\n' within the len bytes read (str[len] is NUL): a stray NUL
+	 * byte only truncates its own line. */
 	cp = str;
 	for (;;) {
-		eol = strchr(cp, '\n');
+		eol = memchr(cp, '\n', (str + len) - cp);
 
 		if (eol) {
 			*eol = '\0';
